@@ -260,7 +260,8 @@ def split_known(prop, violations):
 
 # ---------------------------------------------------------------------------- evidence / verdict
 def write_evidence(prop, tier, level, coverage, wall_s, violations, assumptions):
-    os.makedirs(os.path.join(VERIF, "evidence"), exist_ok=True)
+    evdir = os.environ.get("VERIF_EVIDENCE_DIR") or os.path.join(VERIF, "evidence")  # override: development runs on changed trees
+    os.makedirs(evdir, exist_ok=True)
     ev = {
         "property_id": prop,
         "tier": tier,
@@ -271,7 +272,7 @@ def write_evidence(prop, tier, level, coverage, wall_s, violations, assumptions)
         "wall_s": round(wall_s, 2),
         "violations": violations,
     }
-    p = os.path.join(VERIF, "evidence", prop + ".json")
+    p = os.path.join(evdir, prop + ".json")
     tmp = p + ".tmp%d" % os.getpid()
     with open(tmp, "w") as f:
         json.dump(ev, f, indent=1, sort_keys=True)
